@@ -68,7 +68,14 @@ def main():
                 print("%-7s %s exit=%d violations=%d drift=%d%s %ss  %s" % (r["id"], c, v["exit"], v["violations"], v["drift"],
                       " TOOL-FAILURE" if v["tool_failure"] else "", v["wall_s"], "; ".join(v["reasons"])[:150]), flush=True)
     head = subprocess.check_output(["git", "-C", "/repo", "rev-parse", "--short", "HEAD"]).decode().strip()
-    json.dump({"repo_head": head, "results": results}, open(os.path.join(SEEDED, "sweep_result.json"), "w"), indent=1)
+    out = os.path.join(SEEDED, "sweep_result.json")
+    merged = {}
+    if args and os.path.exists(out):          # a partial run updates the entries of the seeds it ran
+        merged = {r["id"]: r for r in json.load(open(out)).get("results", [])}
+    for r in results:
+        r["repo_head"] = head
+        merged[r["id"]] = r
+    json.dump({"repo_head": head, "results": [merged[k] for k in sorted(merged)]}, open(out, "w"), indent=1)
     missed = [r["id"] for r in results if r["applies"] and not any(v["exit"] == 1 and v["violations"] > 0 for v in r["checks"].values())]
     print("seeds: %d, not applicable at HEAD: %d, not reported: %s" % (len(results), sum(1 for r in results if not r["applies"]), missed or "none"))
 
